@@ -14,6 +14,7 @@ import re
 
 from ..core import AnalysisError, ClassInfo, FuncInfo, Program, call_name, const_value, dotted, unparse, walk_no_nested
 from ..packs import ecc, ord_pack
+from ..pattern import body_is, find, has, has_expr
 from ..report import Ctx
 from ..sigtemplate import CHILDREN, AttrRoles, RecordTemplate
 from ..tables import OPERATOR_TABLE
@@ -151,42 +152,57 @@ def leaf_tables(ctx: Ctx) -> dict[str, str]:
             and unparse(g.body[-1]).replace(' ', '') == 'return{}'
         )
         ctx.add('C01.R5', f'{cname}.dict_of_elementary_expression', good, g, f'{cname} answers exactly the kind {enum} with {{name: self}}' if good else f'{cname} does not answer exactly the kind {enum}', unparse(tests[0].test) if tests else '')
-    for cname, attr in (('Beta', 'self'), ('bioLinearUtility', 'x')):
-        c = prog.find_class(cname, 'expressions')
-        g = c.methods['dict_of_elementary_expression']
-        txt = [unparse(n) for n in g.body]
-        body = ' ; '.join(txt).replace(' ', '')
-        if cname == 'Beta':
-            good = (
-                'ifthe_type==TypeOfElementaryExpression.FREE_BETAandself.status==0:return{self.name:self}' in body.replace('\n', '')
-                and 'ifthe_type==TypeOfElementaryExpression.FIXED_BETAandself.status!=0:return{self.name:self}' in body.replace('\n', '')
-                and 'ifthe_type==TypeOfElementaryExpression.BETA:return{self.name:self}' in body.replace('\n', '')
-            )
-        else:
-            good = (
-                'ifthe_type==TypeOfElementaryExpression.FREE_BETA:return{x.name:xforxinself.betasifx.status==0}' in body.replace('\n', '')
-                and 'ifthe_type==TypeOfElementaryExpression.FIXED_BETA:return{x.name:xforxinself.betasifx.status!=0}' in body.replace('\n', '')
-                and 'ifthe_type==TypeOfElementaryExpression.VARIABLE:return{x.name:xforxinself.variables}' in body.replace('\n', '')
-                and 'ifthe_type==TypeOfElementaryExpression.BETA:return{x.name:xforxinself.betas}' in body.replace('\n', '')
-            )
-        ctx.add('C01.R5', f'{cname}.dict_of_elementary_expression', good, g,
-                f'{cname}: FREE_BETA iff status == 0, FIXED_BETA iff status != 0' if good else f'{cname}: free/fixed/variable classification not in the expected form', body[:200])
+    from ..pattern import body_is, find, has, has_expr
+
+    T = 'TypeOfElementaryExpression'
+    c = prog.find_class('Beta', 'expressions')
+    g = c.methods['dict_of_elementary_expression']
+    good = (
+        has(g.node, f'if the_type == {T}.BETA:\n    return {{self.name: self}}')
+        and has(g.node, f'if the_type == {T}.FREE_BETA and self.status == 0:\n    return {{self.name: self}}')
+        and has(g.node, f'if the_type == {T}.FIXED_BETA and self.status != 0:\n    return {{self.name: self}}')
+        and unparse(g.body[-1]) == 'return {}'
+    )
+    ctx.add('C01.R5', 'Beta.dict_of_elementary_expression', good, g, 'Beta: FREE_BETA iff status == 0, FIXED_BETA iff status != 0' if good else 'Beta: free/fixed classification not in the expected form', 'beta-kinds')
+    c = prog.find_class('bioLinearUtility', 'expressions')
+    g = c.methods['dict_of_elementary_expression']
+    good = (
+        has(g.node, f'if the_type == {T}.BETA:\n    return {{_X.name: _X for _X in self.betas}}')
+        and has(g.node, f'if the_type == {T}.FREE_BETA:\n    return {{_X.name: _X for _X in self.betas if _X.status == 0}}')
+        and has(g.node, f'if the_type == {T}.FIXED_BETA:\n    return {{_X.name: _X for _X in self.betas if _X.status != 0}}')
+        and has(g.node, f'if the_type == {T}.VARIABLE:\n    return {{_X.name: _X for _X in self.variables}}')
+        and unparse(g.body[-1]) == 'return {}'
+    )
+    ctx.add('C01.R5', 'bioLinearUtility.dict_of_elementary_expression', good, g, 'bioLinearUtility: FREE_BETA iff status == 0, FIXED_BETA iff status != 0, variables under VARIABLE' if good else 'bioLinearUtility: free/fixed/variable classification not in the expected form', 'blu-kinds')
     # IdManager.prepare: enum -> table
     prep = prog.func('expressions.idmanager', 'IdManager.prepare')
-    pairs = {}
-    cur_enum = None
-    for st in prep.body:
-        for n in ast.walk(st):
-            if isinstance(n, ast.Attribute) and unparse(n.value) == 'TypeOfElementaryExpression':
-                cur_enum = n.attr
-        if isinstance(st, ast.Assign) and unparse(st.value) == 'expressions_names_indices(expr)':
-            pairs[unparse(st.targets[0])] = cur_enum
     wantp = {'self.free_betas': 'FREE_BETA', 'self.fixed_betas': 'FIXED_BETA', 'self.random_variables': 'RANDOM_VARIABLE', 'self.draws': 'DRAWS'}
-    ctx.add('C01.R5', 'IdManager.prepare:tables', pairs == wantp, prep, 'IdManager fills ' + ', '.join(f'{k.split(".")[1]} from {v}' for k, v in pairs.items()) + ('' if pairs == wantp else f'; expected {wantp}'), str(sorted(pairs.items())))
+    bad = []
+    for tgt, enum in wantp.items():
+        ok1 = has(prep.node, f"""
+_E = {{}}
+for _F in self.expressions:
+    _D = _F.dict_of_elementary_expression(the_type={T}.{enum})
+    _E = dict(_E, **_D)
+{tgt} = expressions_names_indices(_E)
+""")
+        if not ok1:
+            bad.append(f'{tgt.split(".")[1]}<-{enum}')
+    ctx.add('C01.R5', 'IdManager.prepare:tables', not bad, prep, 'IdManager fills free_betas / fixed_betas / random_variables / draws from the elements of the matching kind of every formula' if not bad else f'IdManager does not fill {bad} from the matching kind', str(bad))
     eni = prog.func('expressions.idmanager', 'expressions_names_indices')
-    body = ' ; '.join(unparse(s) for s in eni.body)
-    ok = 'names = sorted(dict_of_elements)' in body and 'for i, v in enumerate(names):\n    indices[v] = i' in body and 'indices=indices' in body and 'names=names' in body and 'expressions=dict_of_elements' in body
-    ctx.add('C01.R5', 'expressions_names_indices', ok, eni, 'indices[name] = position of name in the sorted list of names' if ok else 'indices are not the enumeration of the sorted names', body[:160])
+    pn = eni.positional_params()[0]
+    ok = body_is(eni.body, f"""
+_I = {{}}
+_N = sorted({pn})
+for _K, _V in enumerate(_N):
+    _I[_V] = _K
+return ElementsTuple(expressions={pn}, indices=_I, names=_N)
+""") is not None or body_is(eni.body, f"""
+_N = sorted({pn})
+_I = {{_V: _K for _K, _V in enumerate(_N)}}
+return ElementsTuple(expressions={pn}, indices=_I, names=_N)
+""") is not None
+    ctx.add('C01.R5', 'expressions_names_indices', ok, eni, 'indices[name] = position of name in the sorted list of names' if ok else 'indices are not the enumeration of the sorted names', 'sorted')
     # variables: enumerate(columns)
     names_var = idx_var = None
     for n in ast.walk(prep.node):
@@ -437,9 +453,14 @@ def evaluator_rules(ctx: Ctx) -> None:
             ok = unparse(f.body[-1]) == f'return {acc}' and any(unparse(s) in (f'{acc} = 0.0', f'{acc} = 0') for s in f.body)
     ctx.add(R, 'ConditionalSum.get_value', ok, f, 'ConditionalSum adds term iff its own condition is non-zero' if ok else 'ConditionalSum.get_value is not sum(term if condition != 0)', ' ; '.join(unparse(s) for s in f.body)[:200])
     f = gv('Elem')
-    txt = ' ; '.join(unparse(s) for s in f.body)
-    ok = 'key = int(self.keyExpression.get_value())' in txt and 'if key in self.dict_of_expressions:\n    return self.dict_of_expressions[key].get_value()' in txt and isinstance(f.body[-1], ast.Raise)
-    ctx.add(R, 'Elem.get_value', ok, f, 'Elem returns the entry selected by int(key), BiogemeError otherwise' if ok else 'Elem.get_value does not select the entry of int(key)', txt[:200])
+    ok = has(f.node, """
+_K = int(self.keyExpression.get_value())
+if _K in self.dict_of_expressions:
+    return self.dict_of_expressions[_K].get_value()
+___
+raise BiogemeError(__MSG)
+""")
+    ctx.add(R, 'Elem.get_value', ok, f, 'Elem returns the entry selected by int(key), BiogemeError otherwise' if ok else 'Elem.get_value does not select the entry of int(key)', 'elem')
     f = gv('Numeric')
     ok = len(f.body) == 1 and unparse(f.body[0]) == 'return self.value'
     ctx.add(R, 'Numeric.get_value', ok, f, 'Numeric returns its value' if ok else 'Numeric.get_value', unparse(f.body[-1]))
@@ -689,8 +710,17 @@ def run(ctx: Ctx) -> None:
     # LogLogit: av built for the keys of util when None; av keyed as given
     ll = prog.find_class('LogLogit', 'expressions')
     init = ll.methods['__init__']
-    txt = unparse(init.node)
-    ok = 'self.av = {k: Numeric(1) for k, v in util.items()}' in txt and 'self.av = {alt_id: validate_and_convert(avail_expression) for alt_id, avail_expression in av.items()}' in txt and 'if av is None' in txt
+    ok = has(init.node, """
+if av is None:
+    self.av = {_K: Numeric(1) for _K, _V in util.items()}
+else:
+    self.av = {_A: validate_and_convert(_E) for _A, _E in av.items()}
+""") or has(init.node, """
+if av is None:
+    self.av = {_K: Numeric(1) for _K in util}
+else:
+    self.av = {_A: validate_and_convert(_E) for _A, _E in av.items()}
+""")
     ctx.add('C01.R2', 'LogLogit.__init__:av', ok, init, 'av=None means availability 1 for every key of util; otherwise av is kept key by key' if ok else 'availability plumbing of LogLogit changed', 'av')
     arl = AttrRoles(prog, ll)
     okc = arl.children_template() == '@2 ; ⟦for $0,$1 in @0.items(): $1⟧ ; ⟦for $0,$1 in self.av.items(): $1⟧'
